@@ -21,6 +21,10 @@ impl TraceWriter {
         self.n += 1;
     }
 
+    pub fn flush(&mut self) {
+        self.out.flush().unwrap();
+    }
+
     pub fn finish(mut self) -> usize {
         self.out.flush().unwrap();
         self.n
